@@ -441,6 +441,9 @@ pub struct TwoLevelIterator {
 
     /// The block handle used to get the data block in the [`TwoLevelIterator::data_block`] field.
     data_block_handle: Option<BlockHandle>,
+
+    /// The error that stopped the last `next` or `prev` call, if any.
+    iteration_error: Option<RainDBError>,
 }
 
 /// Private methods
@@ -455,6 +458,7 @@ impl TwoLevelIterator {
             index_block_iter,
             maybe_data_block_iter: None,
             data_block_handle: None,
+            iteration_error: None,
         }
     }
 
@@ -614,6 +618,7 @@ impl RainDbIterator for TwoLevelIterator {
                     error: {}",
                     error
                 );
+                self.iteration_error = Some(error.into());
                 return None;
             }
         }
@@ -644,6 +649,7 @@ impl RainDbIterator for TwoLevelIterator {
                     error: {}",
                     error
                 );
+                self.iteration_error = Some(error.into());
                 return None;
             }
         }
@@ -662,6 +668,10 @@ impl RainDbIterator for TwoLevelIterator {
         }
 
         self.maybe_data_block_iter.as_ref().unwrap().current()
+    }
+
+    fn take_error(&mut self) -> Option<Self::Error> {
+        self.iteration_error.take()
     }
 }
 
